@@ -74,7 +74,7 @@ class Sink:
 
 
 class Taint:
-    def __init__(self, world, doc_types, decoded_enums=(), source_calls=None, bounded_sanitize=True, no_prop=None, io_calls=None):
+    def __init__(self, world, doc_types, decoded_enums=(), source_calls=None, bounded_sanitize=True, no_prop=None, io_calls=None, skip_bodies=None):
         self.w = world
         self.lib = world.lib
         self.g = world.graph
@@ -83,6 +83,7 @@ class Taint:
         self.bounded_sanitize = bounded_sanitize
         self.no_prop = no_prop or NO_PROP
         self.io_calls = io_calls or IO_CALLS
+        self.skip_bodies = skip_bodies
         self.decoded_enums = set(decoded_enums)
         self.V = defaultdict(set)     # (body, local) -> labels
         self.D = defaultdict(set)
@@ -643,7 +644,8 @@ class Taint:
         return changed
 
     def solve(self, max_iter=40000):
-        names = [n for n, b in self.lib.bodies.items() if b.file.startswith("src/") and b.kind not in ("const", "static", "anon_const")]
+        names = [n for n, b in self.lib.bodies.items() if b.file.startswith("src/") and b.kind not in ("const", "static", "anon_const")
+                 and not (self.skip_bodies and self.skip_bodies.search(b.root))]
         self.pending = set(names)
         it = 0
         while it < max_iter:
